@@ -108,6 +108,9 @@ def check_cloud(case, ctx):
             on_bound += expected
         if bool(flat[k]) != expected:
             raise Violation("inside((%r, %r), %r) = %r, closed box says %r" % (x, y, region, bool(flat[k]), expected))
+    # a mask is a value: the later calls on coordinates of the same shape (other regions, other answers) must not have changed the one handed out first
+    ctx.check(np.asarray(own).shape == e.shape and bool(np.all(own)), "the mask returned by an earlier call of inside (every point in its own bounding region: all True) changed its contents "
+              "after inside was called again with other regions")
     ctx.label("ndim%d" % e.ndim, "on_bound" if on_bound else "no_bound_point", "some_outside" if not flat.all() else "all_inside")
     if w == ee or s == nn:
         ctx.label("degenerate_region")
